@@ -83,6 +83,9 @@ pub struct ScenarioReport {
     pub sample: Option<String>,
     pub wall_s: f64,
     pub nontrivial: bool,
+    /// cases enumerated inside executions (E2 loop scenarios) and how many were non-trivial
+    pub cases: usize,
+    pub nontrivial_cases: usize,
 }
 
 pub fn hash_of<T: Hash>(t: &T) -> u64 {
@@ -141,6 +144,12 @@ impl Acc {
         self.rep.steps += r.steps;
         self.rep.choice_points += r.trace.len().saturating_sub(plen);
         self.rep.max_points = self.rep.max_points.max(r.trace.len());
+        for e in &r.log {
+            if let crate::rt::Ev::Note("cases", v) = e {
+                self.rep.cases += v[0] as usize;
+                self.rep.nontrivial_cases += v[1] as usize;
+            }
+        }
         let machinery = match &r.status {
             Status::StepCap => Some("step cap hit (possible livelock) - inconclusive".to_string()),
             Status::Divergence(d) => Some(d.clone()),
